@@ -150,7 +150,12 @@ def _run_sync_call(
         attempt_state = AttemptState()
 
         state.check_abort(attempt - 1)
-        _call_attempt_start(attempt_start_hook, state=state, attempt=attempt)
+        try:
+            _call_attempt_start(attempt_start_hook, state=state, attempt=attempt)
+        except AbortRetryError:
+            # An abort raised by the start hook ends the run like any other abort: report it.
+            handle_abort_in_call(state, attempt - 1)
+            raise
         attempt_state.started = True
 
         try:
